@@ -12,6 +12,8 @@ pub mod shapes;
 #[cfg(kani)]
 pub mod tyshape;
 
+#[cfg(all(test, not(kani)))]
+mod c04_native;
 #[cfg(kani)]
 pub mod c04;
 #[cfg(kani)]
